@@ -14,11 +14,23 @@
 (* of the shapes transcribed in Edits.tla? does the specification's reader *)
 (* of import sections agree with the real parser?) is reported as drift.   *)
 (*                                                                         *)
+(* A record taken after a workspace history (fields hinit / hops: the      *)
+(* history in the terms of EditsHist.tla) is judged against the LIVE        *)
+(* workspace of that history: `exporters` must be LiveExporters(Replay(..)) *)
+(* and the candidate modules given to the fresh server that produced the    *)
+(* "after" observations (cand_mods) must be exactly LiveTexts(Replay(..)),  *)
+(* text for text -- otherwise the driver and the specification have come    *)
+(* apart (modelOk = FALSE: a tool failure, never a verdict).  A module that *)
+(* was removed, renamed away or edited so that it stopped exporting the     *)
+(* class is therefore not an exporter, and a proposal that imports from it  *)
+(* fails ClassNoLongerUnresolved / ClassImportedFromNamedModule on the      *)
+(* fresh server, whatever the running server's own diagnostics say.         *)
+(*                                                                         *)
 (* One state per record (tree root -> chunk -> record, so that workers     *)
 (* share the records); the always-true invariant Judge prints one VERDICT  *)
 (* line per record.                                                        *)
 (***************************************************************************)
-EXTENDS Edits, Json, IOUtils
+EXTENDS EditsHist, Json, IOUtils
 
 Rec == ndJsonDeserialize(IOEnv.TRACE)
 N == Len(Rec)
@@ -41,6 +53,16 @@ Pairs(s) == {s[i] : i \in DOMAIN s}
 
 Select(conds) == SelectSeq(conds, LAMBDA c : ~c[2])
 NamesOf2(conds) == [i \in DOMAIN conds |-> conds[i][1]]
+
+HasHist(R) == "hops" \in DOMAIN R
+WsAfter(R) == Replay(WsOf(R.hinit), R.hops)
+\* the driver's idea of the live workspace is the specification's
+ModelOk(R) ==
+  HasHist(R) =>
+    LET ws == WsAfter(R) IN
+      /\ ToSet(R.exporters) = LiveExporters(ws)
+      /\ DOMAIN R.cand_mods = Live(ws)
+      /\ \A m \in Live(ws) : R.cand_mods[m] = ws[m].t
 
 JudgeRecord(R) ==
   LET T       == Lines(R.text)
@@ -82,10 +104,13 @@ JudgeRecord(R) ==
                  ((\E m \in targets : Good(T, es, m, cls)) <=> (Select(verdict) = <<>>))>>,
            <<"ReaderAgreesBefore", R.syn_before = <<>> => (hB.ok /\ hB.table = impB)>>,
            <<"ReaderAgreesAfter", (R.applied /\ R.syn_before = <<>>) =>
-                                     ((hA.ok <=> R.syn_after = <<>>) /\ (hA.ok => hA.table = impA))>> >>
+                                     ((hA.ok <=> R.syn_after = <<>>) /\ (hA.ok => hA.table = impA))>>,
+           \* the running server holds exactly the live candidate modules (its own bookkeeping: C10's subject)
+           <<"ServerHoldsLiveWorkspace",
+              HasHist(R) => {m \in ToSet(R.srv_live) : m \in DOMAIN R.hinit} = Live(WsAfter(R))>> >>
   IN [failed |-> NamesOf2(Select(verdict)), drift |-> NamesOf2(Select(drift)),
       shape |-> IF shapes = {} THEN "other" ELSE CHOOSE v \in shapes : \A w \in shapes : Len(v) <= Len(w),
-      skipped |-> ""]
+      skipped |-> "", modelOk |-> ModelOk(R)]
 
 \* A proposal without any edit for a class that an import of the document already names (from a module
 \* that does not export it) proposes nothing: there is nothing to judge.
@@ -93,9 +118,9 @@ NothingProposed(R) == R.edits = <<>> /\ \E i \in DOMAIN R.imports_before : R.imp
 
 Verdict(R) ==
   IF R.kind \in {"action", "completion"} /\ NothingProposed(R)
-  THEN [failed |-> <<>>, drift |-> <<>>, shape |-> "", skipped |-> "nothing-proposed"]
+  THEN [failed |-> <<>>, drift |-> <<>>, shape |-> "", skipped |-> "nothing-proposed", modelOk |-> ModelOk(R)]
   ELSE IF R.kind \in {"action", "completion"} THEN JudgeRecord(R)
-  ELSE [failed |-> <<>>, drift |-> <<>>, shape |-> "", skipped |-> R.kind]
+  ELSE [failed |-> <<>>, drift |-> <<>>, shape |-> "", skipped |-> R.kind, modelOk |-> ModelOk(R)]
 
 Judge == l > 0 => PrintT(<<"VERDICT", ToJson([r |-> l] @@ Verdict(Rec[l]))>>)
 =============================================================================
